@@ -5,6 +5,7 @@ import warnings
 from . import core, compare
 
 CONS = ["c1", "c2"]
+_CONTESTS = {}
 
 
 def mc(maxcvrs, slack, cons):
@@ -27,7 +28,7 @@ INVARIANT OriginalsFirst
 INVARIANT LoopAgrees
 INVARIANT Emit
 """
-    return core.run_tlc(mod, cfg, workers=16, extra_files=[(mod + ".tla", text)], timeout=3000, heap="6g")
+    return core.run_tlc(mod, cfg, workers=16, extra_files=[(mod + ".tla", text)], timeout=3000, heap="6g", coverage=True)
 
 
 def run_case(tid, cons, styles, bounds, max_cards, style, rng):
@@ -46,13 +47,18 @@ def run_case(tid, cons, styles, bounds, max_cards, style, rng):
         cvrs.append(CVR(id=f"id-{k}", votes=votes, tally_pool=rng.choice([None, "T"]), pool=False))
     rec["ids"] = [c.id for c in cvrs]
     snapshot = [(c.id, copy.deepcopy(c.votes), c.phantom, c.pool, c.tally_pool) for c in cvrs]
+    # Contest objects live as long as an audit does: the same objects are handed to make_phantoms case after
+    # case (only the user-supplied card bound is set anew), so anything the function leaves on them is carried along
     contests = {}
     for c in cons:
-        contests[c] = Contest.from_dict({"id": c, "name": c, "risk_limit": 0.05,
-                                         "cards": (None if bounds[c] < 0 else bounds[c]),
-                                         "choice_function": "PLURALITY", "n_winners": 1, "candidates": ["A", "B"],
-                                         "winner": ["A"], "audit_type": Audit.AUDIT_TYPE.CARD_COMPARISON,
-                                         "test": NonnegMean.alpha_mart, "use_style": style})
+        if c not in _CONTESTS:
+            _CONTESTS[c] = Contest.from_dict({"id": c, "name": c, "risk_limit": 0.05, "cards": None,
+                                              "choice_function": "PLURALITY", "n_winners": 1, "candidates": ["A", "B"],
+                                              "winner": ["A"], "audit_type": Audit.AUDIT_TYPE.CARD_COMPARISON,
+                                              "test": NonnegMean.alpha_mart, "use_style": style})
+        contests[c] = _CONTESTS[c]
+        contests[c].cards = None if bounds[c] < 0 else bounds[c]
+        contests[c].use_style = style
     audit = compare.mk_audit(style, max_cards)
     try:
         with warnings.catch_warnings():
@@ -88,6 +94,8 @@ def phantoms_part(tier, rep, rng):
     if res.violated:
         rep.violation("Phantoms.tla", f"mc:{res.violated}", f"TLC: {res.violated} violated on the specification",
                       {"counterexample": res.cex[:4000]})
+    if not res.violated:
+        core.require_actions(res, ["AddCvr", "FixBounds", "Block", "PerContest", "Finish"], "PhantomsMC")
     behs = core.beh_lines(res)
     if not behs:
         raise core.MachineryError("no phantom behaviours generated")
